@@ -57,3 +57,50 @@ Fixpoint check_from (i : nat) (l : list bcase) : list (nat * nat * nat) :=
   | c :: rest => map (fun x => (i, x.1, x.2)) (check_case c) ++ check_from (S i) rest
   end.
 Definition bd_failures := check_from 0.
+
+(** * The rescan loop (Sync/BitcoindRescan.v)
+
+    Phase 1: the loop on the node's chain as it was when the rescan started,
+    up to the last block fetched before the node reorganised ([rc_old_above]);
+    phase 2: the same loop state continued against the reorganised best chain
+    (zipper [rc_new_below] / [rc_new_above] at the loop's height). *)
+From Verif Require Import Sync.BitcoindRescan.
+
+Record rcase := {
+  rc_tree : list (N * N * Z * Z);
+  rc_start : N; rc_start_h : Z;
+  rc_old_below : list N;      (* old chain at heights start, start-1, ... *)
+  rc_old_above : list N;      (* old chain at heights start+1 .. last block fetched before the reorganisation *)
+  rc_new_below : list N;      (* new best chain at heights i-1, i-2, ... where i = start + |old_above| + 1 *)
+  rc_new_above : list N;      (* new best chain at heights i, i+1, ... *)
+  rc_ntfns : list ntfn;       (* observed *)
+}.
+
+Definition rcase_run (c : rcase) : option (list ntfn) :=
+  let t := tree_of (rc_tree c) in
+  let s0 := {| r_prev := rc_start c; r_prevh := rc_start_h c; r_stack := [(rc_start c, rc_start_h c)];
+               r_i := rc_start_h c + 1; r_below := rc_old_below c; r_above := rc_old_above c |} in
+  match rescan t s0 with
+  | None => None
+  | Some (out1, s1) =>
+    match rscan bitcoind_rescan_steps_down t (length (rc_new_below c) + length (rc_new_above c) + 1)
+            {| r_prev := r_prev s1; r_prevh := r_prevh s1; r_stack := r_stack s1; r_i := r_i s1;
+               r_below := rc_new_below c; r_above := rc_new_above c |} out1 with
+    | None => None
+    | Some (out2, _) => Some out2
+    end
+  end.
+
+(** 0 = agrees; 1 = the model reports a failed node request; 2 = streams differ *)
+Definition rcase_code (c : rcase) : nat :=
+  match rcase_run c with
+  | None => 1
+  | Some out => if ntfns_eqb out (rc_ntfns c) then 0 else 2
+  end.
+
+Fixpoint rcheck_from (i : nat) (l : list rcase) : list (nat * nat) :=
+  match l with
+  | [] => []
+  | c :: rest => (match rcase_code c with O => [] | k => [(i, k)] end) ++ rcheck_from (S i) rest
+  end.
+Definition rescan_failures := rcheck_from 0.
